@@ -99,6 +99,19 @@ CHECKS = {
              'does not modify its stack (whether real predicates do is not covered).',
         technique='CBMC code contracts on C lowered from the real C++ per run',
     ),
+    'C17': dict(
+        category='proof',
+        text='Slice: the operands of location-expression operations. dwop_number / dwop_number2 (= locexpr_op_values<0>/<1> of atval.cc with '
+             'its three helper lambdas and select<N>; loop-free) are lowered per run and checked for EVERY opcode 0..255 and every pair of stored operand '
+             'words against a table written from the DWARF 4 standard and the GNU extension descriptions (not from the code): which operand is a '
+             'constant, a DIE, a block, a nested expression or absent; constants carry exactly the stored word, signed for SLEB/fixed-signed '
+             'encodings, hexadecimal domain for addresses and decimal otherwise. Counterexamples are replayed on the real dwop_number.',
+        design_ref='DESIGN.md section 4 C17',
+        note='SLICE: location-list iteration (address ranges, elem/relem/length), offsets and opcodes of operations, ?OP_x and all abbreviation words are not '
+             'covered. DWARF 5 opcodes 0xa0..0xa9 unconstrained. Trusted: cxx2c lowering; models of constant/value_cst/producers and of the '
+             'dwarf_getlocation_* calls; the hand-written operand table.',
+        technique='CBMC on C lowered from the real C++ per run: loop-free function over the full input domain against an independent table',
+    ),
     'C20': dict(
         category='other',
         text='Two parts. (A) Integers: <domain>::show of the hex, oct and decimal domains (constant.cc) on top of '
